@@ -6,3 +6,5 @@ pub mod cfgpred;
 pub mod fri;
 #[cfg(feature = "full")]
 pub mod stonefile;
+#[cfg(feature = "full")]
+pub mod pubin;
